@@ -216,3 +216,19 @@ mk("N24_inflate_sync_comment_and_order", [("zlib-rs/src/inflate.rs", rep("""    
     stream.total_out = total_out;
     stream.total_in = total_in;
 """))])
+
+# N25: a private function renamed everywhere
+import glob as _glob, os as _os
+def _ren_all(name, old, new):
+    edits = []
+    for path in sorted(_glob.glob("/repo/zlib-rs/src/**/*.rs", recursive=True)) + sorted(_glob.glob("/repo/libz-rs-sys/src/**/*.rs", recursive=True)):
+        rel = _os.path.relpath(path, "/repo")
+        txt = open(path).read()
+        if re.search(old, txt):
+            edits.append((rel, (lambda o, n: (lambda s: re.sub(o, n, s)))(old, new)))
+    mk(name, edits)
+_ren_all("N25_rename_private_fn", r"\bflush_block_only\b", "flush_current_block")
+# N26: a state field renamed everywhere
+_ren_all("N26_rename_state_field", r"\bblock_open\b", "quick_block_state")
+# N27: a gz helper renamed
+_ren_all("N27_rename_gz_helper", r"\bgz_avail\b", "gz_refill_input")
